@@ -7,8 +7,12 @@
     - SHA384 (offered by the tool) has a 48-byte digest, [LCPPolicy2.PolicyHash] is
       [[32]byte]: the generated policy loses 16 digest bytes, and the parser, which
       sizes the hash by [HashAlg], rejects every 70-byte SHA384 policy;
-    - [GenLCPPolicyV2] replaces every version <= 0x300 by 0x300. *)
-From CSS Require Import Lib.Base Model.LCP Proofs.LCP.
+    - [GenLCPPolicyV2] replaces every version <= 0x300 by 0x300;
+    - txt-prov's [loadConfig] (Model/LCPConfig.v) refuses the documented "0x302" / not-set
+      forms of the version, and fills PolicyHash with 32 bytes for every hash algorithm, so
+      the SHA1 policy it generates does not parse back as itself. *)
+From CSS Require Import Lib.Base Model.LCP Model.LCPConfig Proofs.LCP Proofs.LCPConfig.
+From Coq Require String. Import String.StringSyntax.
 
 (** ** Decoding the three flag words is the inverse of encoding them
     (all 2^4 x 2^4 x 2^7 combinations). *)
@@ -155,3 +159,97 @@ Theorem C17_gen_roundtrip_sha384_always_fails : forall sha3 version digest sinit
   exists p, gen version CryptoSHA384 digest sinit pc ah sg = Ok p /\ parse sha3 (encode2 p) = Err E_UEOF.
 Proof. exact gen_roundtrip_sha384. Qed.
 Print Assumptions C17_gen_roundtrip_sha384_always_fails.
+
+(** ** the policy txt-prov generates from its JSON config file (loadConfig) *)
+(** [config_states c ver alg pt sinit maxsinit lpc lah las]: the eight strings of the config
+    state these parameters in a documented way - the version a hex string (any case, leading
+    zeros) for 0x300..0x306, HashAlg one of SHA1/SHA256/SHA384, PolicyType Any/List, the two
+    SINIT versions not set (defaults 0 / 0xff) or a hex string below 0x100, and each of the
+    three lists the comma-joined names [lpc]/[lah]/[las]: documented names, none twice, in ANY
+    order.  [hex_denotes] is an inductive reading of hex strings that does not mention the model. *)
+Theorem C17_config_characterised : forall c ver alg pt sinit maxsinit lpc lah las,
+  config_states c ver alg pt sinit maxsinit lpc lah las ->
+  load_config c = Ok (config_spec_policy ver alg pt sinit maxsinit lpc lah las).
+Proof. exact config_characterised. Qed.
+Print Assumptions C17_config_characterised.
+
+(** the generated policy carries exactly the stated parameters; the flag words decode
+    (Parse* decoders) to exactly the named flags *)
+Theorem C17_config_carries_params : forall c ver alg pt sinit maxsinit lpc lah las,
+  config_states c ver alg pt sinit maxsinit lpc lah las ->
+  exists p, load_config c = Ok p /\
+    p2_version p = ver /\ p2_hashalg p = alg /\ p2_ptype p = pt /\ p2_sinit p = sinit /\ p2_maxsinit p = maxsinit /\
+    parse_pc (p2_pc p) = pc_flags lpc /\ parse_ah (p2_hmask p) = ah_flags lah /\ parse_as (p2_smask p) = as_flags las.
+Proof. exact config_carries_params. Qed.
+Print Assumptions C17_config_carries_params.
+Example C17_config_states_example :
+  config_states ex_config 774 AlgSHA1 0 127 255 [bs "AuxDelete"; bs "NPW"] [bs "SHA384"; bs "SHA1"]
+                [bs "ECDSAP384SHA384"; bs "RSA2048SHA1"; bs "RSA3072SHA256"].
+Proof. exact ex_config_states. Qed.
+Example C17_config_states_example_shipped_plain :
+  config_states shipped_config_plain 770 AlgSHA256 1 0 255 [] [bs "SHA256"] [bs "RSA2048SHA256"].
+Proof. exact shipped_plain_states. Qed.
+
+(** the inductive reading of hex strings is what the model's digit loop computes *)
+Theorem C17_config_hex_reading : forall l v,
+  hex_denotes l v <-> (l <> [] /\ hex_fold 0 l = Some v).
+Proof.
+  intros l v. split.
+  - intros H. apply hex_denotes_fold in H. tauto.
+  - intros [Hn Hf]. apply hex_denotes_of_fold; assumption.
+Qed.
+Print Assumptions C17_config_hex_reading.
+
+(** generate from the config, serialise, parse.  _partial: HashAlg SHA256 only *)
+Theorem C17_config_roundtrip_partial : forall sha3 c ver pt sinit maxsinit lpc lah las,
+  config_states c ver AlgSHA256 pt sinit maxsinit lpc lah las ->
+  exists p, load_config c = Ok p /\ parse sha3 (encode2 p) = Ok (inr p).
+Proof. exact config_roundtrip_sha256. Qed.
+Print Assumptions C17_config_roundtrip_partial.
+
+(** HashAlg SHA1: loadConfig fills all 32 bytes of PolicyHash (00..1f), the parser keeps the 20
+    bytes of a SHA1 digest: the policy read back is never the generated one *)
+Theorem C17_config_roundtrip_sha1_refuted : exists c p q,
+  load_config c = Ok p /\ parse false (encode2 p) = Ok (inr q) /\ q <> p.
+Proof. exact config_roundtrip_sha1_refuted. Qed.
+Print Assumptions C17_config_roundtrip_sha1_refuted.
+
+Theorem C17_config_roundtrip_sha1_always_fails : forall sha3 c ver pt sinit maxsinit lpc lah las,
+  config_states c ver AlgSHA1 pt sinit maxsinit lpc lah las ->
+  exists p q, load_config c = Ok p /\ parse sha3 (encode2 p) = Ok (inr q) /\
+    p2_hash p = seqZ 0 32 /\ p2_hash q = seqZ 0 20 ++ repeat 0 12 /\ q <> p.
+Proof. exact config_roundtrip_sha1. Qed.
+Print Assumptions C17_config_roundtrip_sha1_always_fails.
+
+Theorem C17_config_roundtrip_sha384_always_fails : forall sha3 c ver pt sinit maxsinit lpc lah las,
+  config_states c ver AlgSHA384 pt sinit maxsinit lpc lah las ->
+  exists p, load_config c = Ok p /\ parse sha3 (encode2 p) = Err E_UEOF.
+Proof. exact config_roundtrip_sha384. Qed.
+Print Assumptions C17_config_roundtrip_sha384_always_fails.
+
+(** the version forms of the documentation that the code refuses: "0x302" (the shipped
+    lcp.json, README.md) - while the same config with "302" gives version 0x302 - and "not set" *)
+Theorem C17_config_version_form_refuted : exists c,
+  c_version c = bs "0x302" /\ load_config c = Err E_STRCONV /\
+  exists p, load_config shipped_config_plain = Ok p /\ p2_version p = 770.
+Proof. exact config_version_form_refuted. Qed.
+Print Assumptions C17_config_version_form_refuted.
+
+Theorem C17_config_version_0x_always_fails : forall c x t,
+  c_version c = 48 :: x :: t -> (x = 120 \/ x = 88) -> load_config c = Err E_STRCONV.
+Proof. exact config_version_0x_always_fails. Qed.
+Print Assumptions C17_config_version_0x_always_fails.
+
+Theorem C17_config_version_unset_always_fails : forall c,
+  c_version c = [] -> load_config c = Err E_STRCONV.
+Proof. exact config_version_unset_always_fails. Qed.
+Print Assumptions C17_config_version_unset_always_fails.
+
+(** the hypotheses of [name_list] are necessary: a name listed twice is added twice
+    ("NPW,NPW" sets SinitCaps, not NPW), a blank after the comma makes the name unknown and it is
+    dropped without an error ("NPW, OwnerEnforced" sets NPW only) *)
+Theorem C17_config_list_hypotheses_needed_refuted :
+  (exists p, load_config dup_config = Ok p /\ parse_pc (p2_pc p) = MkPC false false false true) /\
+  (exists p, load_config blank_config = Ok p /\ parse_pc (p2_pc p) = MkPC true false false false).
+Proof. exact config_list_hypotheses_needed. Qed.
+Print Assumptions C17_config_list_hypotheses_needed_refuted.
